@@ -158,7 +158,7 @@ Definition fix3_add_empty : bool := true.           (* add_fields accepts an emp
 Definition fix4_sort_strings : bool := true.        (* sort_by on StringArray / EncodedRaggedArray columns, stable *)
 Definition fix5_empty_dtype : bool := true.         (* an empty int / bool column keeps its declared dtype *)
 Definition fix7_list_empty_dtype : bool := true.     (* a List[int] column without any element keeps int64 (notes/C19.fix-7.diff) *)
-Definition fix8_int_magnitude : bool := false.       (* python ints below and at/above 2^63 in one int column: uint64 or raise, never float64 (notes/C19.fix-8.diff) *)
+Definition fix8_int_magnitude : bool := true.        (* python ints below and at/above 2^63 in one int column: uint64 or raise, never float64 (notes/C19.fix-8.diff) *)
 Definition fix6_flat_cells : bool := true.          (* a flat-encoded (strand) field rejects entries that are not one symbol *)
 Inductive fk := FB (k : kind) | FN (ks : list (list Z * kind)).
 Definition schema := list (list Z * fk).
